@@ -92,44 +92,46 @@ AllFinish == <>(\A p \in Picks : pc[p] = "done")
 \* an access is [loc, w (write?), atomic]
 A(loc, w, at) == [loc |-> loc, w |-> w, atomic |-> at]
 Sections == {
-  [name |-> "UpdateClientConnState",        kind |-> "env",  locks |-> {"gb"},
+  [name |-> "UpdateClientConnState", gates |-> {"UpdateClientConnState#1"},        kind |-> "env",  locks |-> {"gb"},
      acc |-> {A("addrs", TRUE, FALSE), A("cfg", TRUE, FALSE), A("scRefs", TRUE, FALSE), A("scStates", TRUE, FALSE), A("scRefList", TRUE, FALSE),
               A("refreshingScRefs", FALSE, FALSE), A("ref.subConn", FALSE, FALSE)}],
-  [name |-> "UpdateSubConnState",           kind |-> "env",  locks |-> {"gb"},
+  [name |-> "UpdateSubConnState", gates |-> {"UpdateSubConnState#1"},           kind |-> "env",  locks |-> {"gb"},
      acc |-> {A("scRefs", TRUE, FALSE), A("scStates", TRUE, FALSE), A("refreshingScRefs", TRUE, FALSE), A("affinityMap", TRUE, FALSE),
               A("fallbackMap", TRUE, FALSE), A("state", TRUE, FALSE), A("picker", TRUE, FALSE), A("ref.refreshing", TRUE, FALSE),
               A("ref.stateSignal", TRUE, FALSE), A("ref.deCalls", TRUE, TRUE)}],
-  [name |-> "UpdateSubConnState.swap",      kind |-> "env",  locks |-> {"gb", "ref"},
+  [name |-> "UpdateSubConnState.swap", gates |-> {"UpdateSubConnState#2"},      kind |-> "env",  locks |-> {"gb", "ref"},
      acc |-> {A("ref.subConn", TRUE, FALSE), A("ref.lastResp", TRUE, FALSE), A("ref.refreshCnt", TRUE, FALSE)}],
-  [name |-> "Pick.prologue",                kind |-> "pick", locks |-> {},
+  [name |-> "Pick.prologue", gates |-> {},                kind |-> "pick", locks |-> {},
      acc |-> {A("picker.scRefs", FALSE, FALSE), A("methodCfg", FALSE, FALSE), A("cfg", FALSE, FALSE)}],
-  [name |-> "getReadySubConnRef",           kind |-> "pick", locks |-> {"p", "gb"},
+  [name |-> "getReadySubConnRef", gates |-> {"getReadySubConnRef#1"},           kind |-> "pick", locks |-> {"p", "gb"},
      acc |-> {A("affinityMap", FALSE, FALSE), A("scStates", FALSE, FALSE), A("scRefs", FALSE, FALSE), A("fallbackMap", TRUE, FALSE),
               A("picker", FALSE, FALSE), A("ref.subConn", FALSE, FALSE), A("ref.streams", FALSE, TRUE)}],
-  [name |-> "leastBusy",                    kind |-> "pick", locks |-> {"p"},
+  [name |-> "leastBusy", gates |-> {"getAndIncrementSubConnRef#1"},                    kind |-> "pick", locks |-> {"p"},
      acc |-> {A("picker.scRefs", FALSE, FALSE), A("ref.streams", FALSE, TRUE)}],
-  [name |-> "getConnectionPoolSize",        kind |-> "pick", locks |-> {"p", "gb"}, acc |-> {A("scRefs", FALSE, FALSE)}],
-  [name |-> "newSubConn",                   kind |-> "pick", locks |-> {"p", "gb"},
+  [name |-> "getConnectionPoolSize", gates |-> {"getConnectionPoolSize#1"},        kind |-> "pick", locks |-> {"p", "gb"}, acc |-> {A("scRefs", FALSE, FALSE)}],
+  [name |-> "newSubConn", gates |-> {"newSubConnIfBelow#1"},                   kind |-> "pick", locks |-> {"p", "gb"},
      acc |-> {A("scStates", TRUE, FALSE), A("scRefs", TRUE, FALSE), A("scRefList", TRUE, FALSE), A("addrs", FALSE, FALSE)}],
-  [name |-> "getSubConnRoundRobin",         kind |-> "pick", locks |-> {"gbR"},
+  [name |-> "getSubConnRoundRobin", gates |-> {"getSubConnRoundRobin#1", "getSubConnRoundRobin#2", "getSubConnRoundRobin#3"},         kind |-> "pick", locks |-> {"gbR"},
      acc |-> {A("scRefList", FALSE, FALSE), A("rrRefId", TRUE, TRUE), A("scStates", FALSE, FALSE), A("ref.subConn", FALSE, FALSE),
               A("ref.stateSignal", FALSE, FALSE)}],
-  [name |-> "Pick.epilogue",                kind |-> "pick", locks |-> {"ref"},
+  [name |-> "Pick.epilogue", gates |-> {"getSubConn#1"},                kind |-> "pick", locks |-> {"ref"},
      acc |-> {A("ref.subConn", FALSE, FALSE)}],
-  [name |-> "Pick.streamsIncr",             kind |-> "pick", locks |-> {}, acc |-> {A("ref.streams", TRUE, TRUE)}],
-  [name |-> "Done.streamsDecr",             kind |-> "done", locks |-> {}, acc |-> {A("ref.streams", TRUE, TRUE), A("cfg", FALSE, FALSE)}],
-  [name |-> "Done.gotResp",                 kind |-> "done", locks |-> {"ref"},
+  [name |-> "Pick.streamsIncr", gates |-> {},             kind |-> "pick", locks |-> {}, acc |-> {A("ref.streams", TRUE, TRUE)}],
+  [name |-> "Done.streamsDecr", gates |-> {},             kind |-> "done", locks |-> {}, acc |-> {A("ref.streams", TRUE, TRUE), A("cfg", FALSE, FALSE)}],
+  [name |-> "Done.gotResp", gates |-> {"gotResp#1"},                 kind |-> "done", locks |-> {"ref"},
      acc |-> {A("ref.lastResp", TRUE, FALSE), A("ref.refreshCnt", TRUE, FALSE)}],
-  [name |-> "Done.gotResp.deCalls",         kind |-> "done", locks |-> {}, acc |-> {A("ref.deCalls", TRUE, TRUE)}],
-  [name |-> "Done.detect",                  kind |-> "done", locks |-> {"ref"},
+  [name |-> "Done.gotResp.deCalls", gates |-> {},         kind |-> "done", locks |-> {}, acc |-> {A("ref.deCalls", TRUE, TRUE)}],
+  [name |-> "Done.detect", gates |-> {"respState#1"},                  kind |-> "done", locks |-> {"ref"},
      acc |-> {A("ref.lastResp", FALSE, FALSE), A("ref.refreshCnt", FALSE, FALSE)}],
-  [name |-> "Done.deCallsInc",              kind |-> "done", locks |-> {}, acc |-> {A("ref.deCalls", TRUE, TRUE)}],
-  [name |-> "Done.refresh",                 kind |-> "done", locks |-> {"gb"},
+  [name |-> "Done.deCallsInc", gates |-> {},              kind |-> "done", locks |-> {}, acc |-> {A("ref.deCalls", TRUE, TRUE)}],
+  [name |-> "Done.refresh", gates |-> {"refresh#1"},                 kind |-> "done", locks |-> {"gb"},
      acc |-> {A("ref.refreshing", TRUE, FALSE), A("scRefs", FALSE, FALSE), A("ref.subConn", FALSE, FALSE), A("refreshingScRefs", TRUE, FALSE),
               A("addrs", FALSE, FALSE)}],
-  [name |-> "Done.bind",                    kind |-> "done", locks |-> {"gb"},
-     acc |-> {A("affinityMap", TRUE, FALSE), A("scRefs", FALSE, FALSE), A("ref.affinity", TRUE, TRUE)}],
-  [name |-> "Done.bind.subConn",            kind |-> "done", locks |-> {"ref"}, acc |-> {A("ref.subConn", FALSE, FALSE)}]
+  [name |-> "Done.bind", gates |-> {"bindSubConnRef#1", "bindSubConn#1", "unbindSubConn#1"},   kind |-> "done", locks |-> {"gb"},
+     acc |-> {A("affinityMap", TRUE, FALSE), A("scRefs", FALSE, FALSE), A("ref.subConn", FALSE, FALSE), A("ref.affinity", TRUE, TRUE)}],
+  \* a round-robin BIND on an emptied pool re-creates a connection without a picker lock
+  [name |-> "newSubConn.rr", gates |-> {"newSubConnIfBelow#1"}, kind |-> "pick", locks |-> {"gb"},
+     acc |-> {A("scStates", TRUE, FALSE), A("scRefs", TRUE, FALSE), A("scRefList", TRUE, FALSE), A("addrs", FALSE, FALSE)}]
 }
 
 \* two sections may overlap unless both belong to the serialised environment
@@ -145,5 +147,10 @@ LocksetOK == \A a \in Sections, b \in Sections : ~Racy(a, b)
 RacyPairs == {<<p[1].name, p[2].name>> : p \in {q \in Sections \X Sections : Racy(q[1], q[2])}}
 
 Overlaps == {<<p[1].kind, p[2].kind>> : p \in {q \in Sections \X Sections : MayOverlap(q[1], q[2])}}
+\* gate table: which locks are held (including the one being taken) at every lock acquisition site of the rewritten
+\* sources; tools/conc.py compares it with what the gate build of the real code records (binding of this table)
+GateTable == {[gate |-> gt, locks |-> sct.locks] : sct \in {x \in Sections : x.gates # {}}, gt \in UNION {x.gates : x \in Sections}}
+GateRows == {r \in GateTable : \E x \in Sections : r.gate \in x.gates /\ r.locks = x.locks}
+EmitGates == PrintT(<<"GATES", ToJson(GateRows)>>)
 EmitOverlaps == PrintT(<<"OVERLAPS", ToJson([kinds |-> Overlaps, sections |-> Cardinality(Sections), racy |-> RacyPairs])>>)
 =============================================================================
